@@ -122,3 +122,23 @@ Proof.
   replace gen_wview_size with XCursor by (vm_compute; reflexivity).
   apply exp_wview_ok.
 Qed.
+
+(* the set of stream operators declared in DataStreaming.h is exactly the eight the model knows: an
+   added overload (e.g. one taking WriteSizeCalculator& that wins for `calc << v`) or a changed
+   signature / enable_if guard breaks this *)
+Lemma src_overload_set_closed : gen_overloads = exp_overloads.
+Proof. vm_compute. reflexivity. Qed.
+
+(* for the FIRST operand of a chain, whatever static type the stream is used through (WriteStream&,
+   BufferWriter, FixedBufferWriter, WriteSizeCalculator; ReadStream&, BufferReader), clang selects the
+   overload whose write() calls are the chunks of the model's encode / whose result is the model's get *)
+Lemma src_overload_selection :
+  (forall s k o, In (s, k, o) gen_selection -> (s <= 4)%N ->
+     forall v, kind_value k v = true -> ovl_chunks o v = Some (chunks v)) /\
+  (forall s k o, In (s, k, o) gen_selection -> (5 <= s)%N ->
+     forall sh r, kind_shape k sh = true -> ovl_get o sh r = Some (get sh r)) /\
+  map (fun t => fst t) gen_selection = map (fun t => fst t) exp_selection.
+Proof.
+  assert (E : gen_selection = exp_selection) by (vm_compute; reflexivity).
+  rewrite E. split; [exact exp_selection_out | split; [exact exp_selection_in | reflexivity]].
+Qed.
